@@ -365,6 +365,9 @@ func execC13(t *testing.T, plan *h.Plan, trace bool) *h.Result {
 				// event matches the base `when`; errors are fine, panics and
 				// hangs are not.
 				guard("hostile-rule-event", func() { loc.ProcessEvent(ctx(), core.Map{"a": "x", "b": "y"}) })
+				// ... and once more: what the first event left behind about this
+				// rule (a cache entry, say) serves the second
+				guard("hostile-rule-event-again", func() { loc.ProcessEvent(ctx(), core.Map{"a": "x", "b": "y"}) })
 			}
 			if err != nil && !panicked {
 				// the input was refused: it must have left nothing behind.  The event
